@@ -173,10 +173,14 @@ func VerifReq_Cooperative() {
 				if !l.Remote {
 					continue
 				}
+				// ... at the moment it is needed: the block must accompany the
+				// first mention of the link (a later mention, e.g. through a
+				// second link to the same block, comes too late for the first)
 				sent := false
 				for _, it := range items {
-					if it.Link == l.Link && it.Block {
-						sent = true
+					if it.Link == l.Link {
+						sent = it.Block
+						break
 					}
 				}
 				if !sent {
@@ -247,6 +251,7 @@ func VerifReq_Cooperative() {
 			wantMissing = append(wantMissing, l)
 		}
 	}
+	verifrt.Eventf("region: prefixDiverges=%v neededWithheld=%v localPrefix=%d want=%d got=%d", prefixDiverges, neededWithheld, localPrefix, len(wantLoads), len(got))
 	verifrt.AssertKF(len(got) == len(wantLoads), "C02 number of blocks delivered differs from the blocks either peer can supply", "C02-F2", prefixDiverges && neededWithheld)
 	for i := range wantLoads {
 		if i < len(got) {
